@@ -36,6 +36,12 @@ class Env(object):
         shutil.rmtree(self.dir, ignore_errors=True)
 
 
+def bad_schema(variant):
+    """the document written when the model says the schema is invalid: invalid for every draft, or (variant d3_explicit)
+    invalid only for the class named by --validator -- whose verdict is the one that counts"""
+    return {"type": "object", "required": ["a"]} if variant.get("d3_explicit") else {"type": 12}
+
+
 def materialise(env, schema_state, insts, variant):
     """files for one run; returns (argv, per-instance (path, kind), schema object or None)"""
     env.n += 1
@@ -46,6 +52,9 @@ def materialise(env, schema_state, insts, variant):
     if variant.get("dollar_schema"):
         schema["$schema"] = D4
         schema["additionalProperties"] = False if variant.get("strict") else True
+    if variant.get("d4_only"):
+        # well-formed for the class named by --validator (Draft 4: boolean exclusiveMinimum), not for the default class
+        schema = dict(SCHEMA, minimum=0, exclusiveMinimum=True)
     if variant.get("root_id"):
         # a draft 4 document with its own root `id` (not where the file lives) and references into itself, written both
         # as a bare fragment and relative to that id; the class comes from $schema and honours `id`
@@ -60,7 +69,7 @@ def materialise(env, schema_state, insts, variant):
     if schema_state == "notjson":
         env.write("schema-%s.json" % tag, "{not json")
     elif schema_state == "invalid":
-        env.write("schema-%s.json" % tag, json.dumps({"type": 12}))
+        env.write("schema-%s.json" % tag, json.dumps(bad_schema(variant)))
     elif schema_state == "valid":
         env.write("schema-%s.json" % tag, json.dumps(schema))
     argv = []
@@ -86,6 +95,8 @@ def materialise(env, schema_state, insts, variant):
         argv += ["--error-format", ""]
     if variant.get("explicit_validator"):
         argv += ["--validator", "Draft4Validator"]
+    if variant.get("d3_explicit"):
+        argv += ["--validator", "Draft3Validator"]
     if variant.get("base_uri"):
         argv += ["--base-uri", "file://" + env.dir + "/"]
     argv.append(sp)
@@ -218,9 +229,9 @@ def run_case(js, env, schema_state, insts, variant, subprocess_too=False):
                     v = cls(schema_obj)
                 lib_errors[i + 1] = [("{}".format(e.instance), e.message) for e in v.iter_errors(inst)]
     if schema_state == "invalid":
-        cls0 = js.Draft4Validator if variant.get("explicit_validator") else js.Draft7Validator
+        cls0 = js.Draft3Validator if variant.get("d3_explicit") else js.Draft4Validator if variant.get("explicit_validator") else js.Draft7Validator
         try:
-            cls0.check_schema({"type": 12})
+            cls0.check_schema(bad_schema(variant))
         except js.exceptions.SchemaError as e:
             lib_errors["schema"] = [("{}".format(e.instance), e.message)]
     stdin_text = None
@@ -261,7 +272,7 @@ def main(args):
                "checks exit-0-iff-everything-succeeded, every-instance-processed, plain-stdout-empty and monotone exit code, "
                "and exports the expected exit code and record sequences; each run is executed with real files through "
                "cli.run (and a sample through `python -m jsonschema`) in the variants default error format / custom "
-               "--error-format / an empty --error-format / a draft 4 schema with a root id and references into itself / explicit --validator / class from $schema / explicit --validator against a schema declaring another draft / --base-uri with a relative file reference / "
+               "--error-format / an empty --error-format / a draft 4 schema with a root id and references into itself / explicit --validator / class from $schema / explicit --validator against a schema declaring another draft / a schema that is well-formed (or ill-formed) only for the class named by --validator / --base-uri with a relative file reference / "
                "instance on stdin, stdout and stderr are parsed back into records and each validation error is attributed by "
                "comparison with the library's own iter_errors; plus random longer lists judged by TLC (Trace_C19). "
                "Non-trivial: a valid schema and >= 2 instances of different kinds; distinct by (inputs, variant)." % (2 if quick else 3))
@@ -270,12 +281,14 @@ def main(args):
         raise tlc.MachineryFailure("CLI model violated: " + r.violation)
     ck.add_tlc(r, "MC_C19")
     env = Env()
-    variants_plain = [{}, {"custom_format": True}, {"empty_format": True}, {"root_id": True, "custom_format": True}, {"explicit_validator": True, "custom_format": True}, {"dollar_schema": True},
+    variants_plain = [{}, {"explicit_validator": True, "d4_only": True, "custom_format": True}, {"custom_format": True}, {"empty_format": True}, {"root_id": True, "custom_format": True}, {"explicit_validator": True, "custom_format": True}, {"dollar_schema": True},
                       {"explicit_validator": True, "dollar_schema7": True, "custom_format": True},
                       {"base_uri": True, "custom_format": True}]
     try:
         for n, ex in enumerate(r.exports):
             vs = [{"pretty": True}, {"pretty": True, "explicit_validator": True}] if ex["pretty"] else variants_plain
+            if ex["schema"] == "invalid":
+                vs = vs + [dict(vs[0], d3_explicit=True)]
             if len(ex["insts"]) == 1 and ex["insts"][0]["k"] in ("valid", "invalid", "notjson"):
                 vs = vs + [dict(vs[0], stdin=True)]
             for vi, variant in enumerate(vs):
